@@ -5,8 +5,81 @@
 #include <cstdio>
 #include <cstdlib>
 #include <memory>
+#include <cfenv>
+#include <cfloat>
+#include <random>
+#if defined(__SSE__) || defined(__SSE2__)
+#include <xmmintrin.h>
+#endif
+#include "libphysica/Integration.hpp"
 #include "libphysica/Linear_Algebra.hpp"
+#include "libphysica/Numerics.hpp"
+#include "libphysica/Special_Functions.hpp"
+#include "libphysica/Statistics.hpp"
 using namespace libphysica;
+
+// ---- the ambient floating-point state of the process (`amb` cases; grammar: checks/C04.py) ----
+// The control state the process started with is recorded before any library call; `fp_state` reports, as three integers that
+// are 0 when nothing changed, the control bits of MXCSR (flush-to-zero, denormals-are-zero, exception masks, rounding
+// direction) and the x87 control word relative to that state, and what a handful of operations actually do now: bit 0 a
+// subnormal product is flushed, bit 1 a subnormal operand is read as zero, bits 2-4 a sum is not rounded to nearest.
+static fenv_t g_env0;
+static unsigned int g_csr0 = 0, g_cw0 = 0;
+static unsigned int rd_csr()
+{
+#if defined(__SSE__) || defined(__SSE2__)
+	return _mm_getcsr();
+#else
+	return 0;
+#endif
+}
+static unsigned int rd_cw()
+{
+#if defined(__x86_64__) || defined(__i386__)
+	unsigned short cw = 0;
+	__asm__ __volatile__("fnstcw %0" : "=m"(cw));
+	return cw;
+#else
+	return (unsigned int) fegetround();
+#endif
+}
+static void env_record()
+{
+	fegetenv(&g_env0);
+	g_csr0 = rd_csr();
+	g_cw0  = rd_cw();
+}
+static void env_restore()
+{
+	fesetenv(&g_env0);
+#if defined(__SSE__) || defined(__SSE2__)
+	_mm_setcsr(g_csr0);
+#endif
+}
+static long fp_probe()
+{
+	// constants are built by ldexp (exact, independent of the control state), operations are made on volatile operands at run time
+	volatile double mn = DBL_MIN, half = 0.5, den = std::ldexp(1.0, -1074), one = 1.0, zero = 0.0, big = std::ldexp(1.0, 60);
+	volatile double e1 = std::ldexp(1.0, -53), e2 = std::ldexp(1.5, -53), e3 = std::ldexp(1.0, -54);
+	const double p_ok = std::ldexp(1.0, -1023), q_ok = std::ldexp(1.0, -1014), c_ok = 1.0 + std::ldexp(1.0, -52);
+	long bits		  = 0;
+	volatile double p = mn * half;
+	if(p == zero || p != p_ok) bits |= 1;
+	volatile double q = den * big;
+	if(den == zero || q != q_ok) bits |= 2;
+	volatile double a = one + e1, b = -one - e1, c = one + e2, d = one - e3;
+	if(a != one) bits |= 4;
+	if(b != -one) bits |= 8;
+	if(c != c_ok || d != one) bits |= 16;
+	return bits;
+}
+static void fp_state(vh::Out& o)
+{
+	o.w("fp");
+	o.i((long) ((rd_csr() ^ g_csr0) & 0xFFC0u));
+	o.i((long) (rd_cw() ^ g_cw0));
+	o.i(fp_probe());
+}
 
 static void put(vh::Out& o, const Matrix& M)
 {
@@ -339,7 +412,52 @@ static void dispatch(const std::string& op, vh::Reader& r, vh::Out& o)
 	else
 		o.w("HARNESSERR unknown_op");
 }
-static void handler(vh::Reader& r, vh::Out& o)
+// ---- calls of OTHER facilities of the library (`amb` cases): `name L tok_1 .. tok_L`; their results are not part of the answer
+static volatile double g_sink = 0.0;
+static void foreign_call(const std::string& name, vh::Reader& r)
+{
+	double acc = 0.0;
+	if(name == "eigenvalues") { Matrix M(r.table()); for(double x : Eigenvalues(M)) acc += x; }
+	else if(name == "eigensystem") { Matrix M(r.table()); auto es = Eigensystem(M); for(double x : es.first) acc += x; for(auto& v : es.second) acc += v[0]; }
+	else if(name == "eigenvectors") { Matrix M(r.table()); for(auto& v : Eigenvectors(M)) acc += v[0]; }
+	else if(name == "qr") { Matrix M(r.table()); auto qr = QR_Decomposition(M); acc += qr.first[0][0] + qr.second[0][0]; }
+	else if(name == "determinant") { Matrix M(r.table()); acc += M.Determinant(); }
+	else if(name == "inverse") { Matrix M(r.table()); acc += M.Inverse()[0][0]; }
+	else if(name == "invertible") { Matrix M(r.table()); acc += M.Invertible() ? 1.0 : 0.0; acc += M.Orthogonal() ? 1.0 : 0.0; }
+	else if(name == "rotation") { double al = r.num(); long d = r.integer(); acc += Rotation_Matrix(al, (int) d)[0][0]; }
+	else if(name == "angle") { Vector u(r.list()), v(r.list()); acc += Angle(u, v); }
+	else if(name == "spherical") { double a = r.num(), b = r.num(), c = r.num(); acc += Spherical_Coordinates(a, b, c)[0]; }
+	else if(name == "round") { Matrix M(r.table()); acc += Round(M)[0][0]; }
+	else if(name == "integrate") { auto f = vh::fun1(vh::parse_fexpr(r)); double a = r.num(), b = r.num(), e = r.num(); acc += Integrate(f, a, b, e); }
+	else if(name == "gauss_legendre") { auto f = vh::fun1(vh::parse_fexpr(r)); double a = r.num(), b = r.num(); long n = r.integer(); acc += Integrate_Gauss_Legendre(f, a, b, (unsigned int) n); }
+	else if(name == "find_root") { auto f = vh::fun1(vh::parse_fexpr(r)); double a = r.num(), b = r.num(), e = r.num(); acc += Find_Root(f, a, b, e); }
+	else if(name == "find_minimum") { auto f = vh::fun1(vh::parse_fexpr(r)); double a = r.num(), b = r.num(); acc += Find_Minimum(f, a, b); acc += Find_Maximum([f](double x) { return -f(x); }, a, b); }
+	else if(name == "interpolation")
+	{
+		std::vector<double> xs = r.list(), fs = r.list();
+		double x = r.num();
+		Interpolation I(xs, fs);
+		acc += I(x) + I.Derivative(x) + I.Integrate(xs.front(), x);
+	}
+	else if(name == "special") { double x = r.num(); acc += Gamma(x) + GammaLn(x) + Erfi(x) + Dawson_Integral(x) + GammaQ(x, 1.5) + Inv_Erf(0.25) + Factorial(7); }
+	else if(name == "statistics")
+	{
+		double x = r.num(), mu = r.num(), sg = r.num();
+		std::vector<double> data = r.list();
+		acc += PDF_Gauss(x, mu, sg) + CDF_Gauss(x, mu, sg) + Quantile_Gauss(0.3, mu, sg) + CDF_Poisson(sg + 1.0, 3) + PDF_Chi_Square(sg, 3.0) + CDF_Maxwell_Boltzmann(sg, 1.0);
+		acc += Arithmetic_Mean(data) + Variance(data) + Median(data);
+	}
+	else if(name == "sample")
+	{
+		long seed = r.integer(), n = r.integer();
+		std::mt19937 PRNG((unsigned int) seed);
+		for(long k = 0; k < n; k++)
+			acc += Sample_Gauss(PRNG, 0.0, 1.0) + Sample_Uniform(PRNG, 0.0, 2.0) + Sample_Poisson(PRNG, 3.5);
+	}
+	else { std::fprintf(stderr, "unknown foreign call %s\n", name.c_str()); _exit(77); }
+	g_sink = acc;
+}
+static void handler_inner(vh::Reader& r, vh::Out& o)
 {
 	std::string op = r.word();
 	g_hist		   = false;
@@ -374,4 +492,88 @@ static void handler(vh::Reader& r, vh::Out& o)
 		else { std::fprintf(stderr, "unknown life step\n"); std::abort(); }
 	}
 }
-int main(int argc, char** argv) { return vh::run(argc, argv, handler); }
+// the same request answered by a child process that runs in the control state the harness started with and has made no
+// other call: `EXIT` when the library terminates it
+static std::string pristine_answer(const vh::Reader& at)
+{
+	int pfd[2];
+	if(pipe(pfd) != 0)
+		return "HARNESSERR pipe";
+	fflush(stdout);
+	fflush(stderr);
+	pid_t pid = fork();
+	if(pid == 0)
+	{
+		close(pfd[0]);
+		env_restore();
+		vh::Reader rc = at;
+		vh::Out oc;
+		handler_inner(rc, oc);
+		std::string s = oc.s.str();
+		size_t off	  = 0;
+		while(off < s.size())
+		{
+			ssize_t n = write(pfd[1], s.data() + off, s.size() - off);
+			if(n <= 0)
+				break;
+			off += (size_t) n;
+		}
+		_exit(0);
+	}
+	close(pfd[1]);
+	std::string got;
+	char b[4096];
+	ssize_t n;
+	while((n = read(pfd[0], b, sizeof b)) > 0)
+		got.append(b, (size_t) n);
+	close(pfd[0]);
+	int st = 0;
+	waitpid(pid, &st, 0);
+	if(WIFEXITED(st) && WEXITSTATUS(st) == 0)
+		return got;
+	if(WIFEXITED(st))
+		return WEXITSTATUS(st) == 77 ? "HARNESSERR" : "EXIT";
+	return "CRASH";
+}
+static void handler(vh::Reader& r, vh::Out& o)
+{
+	if(!(r.i < r.t.size() && r.t[r.i] == "amb"))
+	{
+		handler_inner(r, o);
+		return;
+	}
+	// amb K (name L tok_1 .. tok_L)*K <request>: the request after K calls of other facilities of the library in this process,
+	// `||`, the same request answered by a pristine process, `||`, the floating-point control state after the K calls.
+	r.word();
+	long k = r.integer();
+	std::vector<std::pair<std::string, std::vector<std::string>>> calls;
+	for(long c = 0; c < k; c++)
+	{
+		std::string name = r.word();
+		long len		 = r.integer();
+		std::vector<std::string> toks;
+		for(long t = 0; t < len; t++)
+			toks.push_back(r.word());
+		calls.emplace_back(name, toks);
+	}
+	std::string pristine = pristine_answer(r);
+	for(auto& c : calls)
+	{
+		vh::Reader rc("");
+		rc.t = c.second;
+		foreign_call(c.first, rc);
+	}
+	vh::Out st;
+	fp_state(st);
+	handler_inner(r, o);
+	o.w("||");
+	o.w(pristine);
+	o.w("||");
+	o.w(st.s.str());
+	env_restore();	 // the cases that follow in this worker start from the recorded state again
+}
+int main(int argc, char** argv)
+{
+	env_record();
+	return vh::run(argc, argv, handler);
+}
